@@ -1,5 +1,7 @@
 // C08 — vec_znx size/stride semantics: zero-extend, truncate, write only res limbs.
 // Oracle: the per-limb definition (missing input limb = 0), evaluated in plain C.
+#include <pthread.h>
+
 #include "lib.h"
 
 typedef enum {
@@ -327,6 +329,111 @@ static void interleaved_case(op_t op, MODULE_TYPE mt, int native, uint64_t N, ui
   case_end(rs >= 1);
 }
 
+// the same operations from several threads at once, each on its own vectors (in place and out of place): every result
+// is checked by the calling thread against the per-limb definition; an implementation that stages data in storage shared
+// between calls computes another function as soon as two calls overlap
+typedef struct {
+  const MODULE* mod;
+  uint64_t N, seed;
+  int iters, big_ok;
+  uint64_t wrong, calls;
+  op_t first_bad;
+  pthread_barrier_t* bar;
+} cthr8_t;
+static void* c8_worker(void* arg) {
+  cthr8_t* c = arg;
+  const uint64_t N = c->N;
+  rng_t r;
+  rng_seed(&r, c->seed, 88);
+  int64_t* x = malloc(3 * N * 8);   // in-place operand: 3 limbs, stride N
+  int64_t* x0 = malloc(3 * N * 8);
+  int64_t* o = malloc(3 * N * 8);   // other operand
+  int64_t* y = malloc(3 * N * 8);   // out-of-place result
+  int64_t* e = malloc(N * 8);
+  pthread_barrier_wait(c->bar);
+  static const op_t OPS8[] = {OP_AUTO, OP_ROTATE, OP_COPY, OP_NEGATE, OP_ADD, OP_SUB, OP_BIG_AUTO, OP_BIG_ROTATE, OP_BIG_ADD, OP_BIG_SUB};
+  for (int it = 0; it < c->iters; it++) {
+    const op_t op = OPS8[(unsigned)it % ARRAY_LEN(OPS8)];
+    if (op_is_big(op) && !c->big_ok) continue;
+    for (uint64_t i = 0; i < 3 * N; i++) {
+      x[i] = x0[i] = rng_sbits(&r, 60);
+      o[i] = rng_sbits(&r, 60);
+    }
+    int64_t p = rng_sbits(&r, 1 + (unsigned)(rng_u64(&r) % 61));
+    if (op == OP_AUTO || op == OP_BIG_AUTO) p |= 1;
+    const uint64_t rs = 1 + (uint64_t)(it % 3), as = 1 + (uint64_t)((it / 3) % 3);
+    const MODULE* m = c->mod;
+    for (int inplace = 0; inplace <= 1; inplace++) {
+      int64_t* res = inplace ? x : y;
+      switch (op) {
+        case OP_COPY: vec_znx_copy(m, res, rs, N, x, as, N); break;
+        case OP_NEGATE: vec_znx_negate(m, res, rs, N, x, as, N); break;
+        case OP_ADD: vec_znx_add(m, res, rs, N, x, as, N, o, 3, N); break;
+        case OP_SUB: vec_znx_sub(m, res, rs, N, x, as, N, o, 3, N); break;
+        case OP_ROTATE: vec_znx_rotate(m, p, res, rs, N, x, as, N); break;
+        case OP_AUTO: vec_znx_automorphism(m, p, res, rs, N, x, as, N); break;
+        case OP_BIG_ROTATE: vec_znx_big_rotate(m, p, (VEC_ZNX_BIG*)res, rs, (VEC_ZNX_BIG*)x, as); break;
+        case OP_BIG_AUTO: vec_znx_big_automorphism(m, p, (VEC_ZNX_BIG*)res, rs, (VEC_ZNX_BIG*)x, as); break;
+        case OP_BIG_ADD: vec_znx_big_add(m, (VEC_ZNX_BIG*)res, rs, (VEC_ZNX_BIG*)x, as, (VEC_ZNX_BIG*)o, 3); break;
+        default: vec_znx_big_sub(m, (VEC_ZNX_BIG*)res, rs, (VEC_ZNX_BIG*)x, as, (VEC_ZNX_BIG*)o, 3); break;
+      }
+      c->calls++;
+      for (uint64_t l = 0; l < rs; l++) {
+        for (uint64_t i = 0; i < N; i++) {
+          const int64_t al = l < as ? x0[l * N + i] : 0;
+          switch (op) {
+            case OP_COPY: e[i] = al; break;
+            case OP_NEGATE: e[i] = -al; break;
+            case OP_ADD: case OP_BIG_ADD: e[i] = al + o[l * N + i]; break;
+            case OP_SUB: case OP_BIG_SUB: e[i] = al - o[l * N + i]; break;
+            default: break;
+          }
+        }
+        if (op == OP_ROTATE || op == OP_BIG_ROTATE || op == OP_AUTO || op == OP_BIG_AUTO) {
+          if (l < as) ring_map(N, op == OP_AUTO || op == OP_BIG_AUTO, p, x0 + l * N, e);
+          else memset(e, 0, N * 8);
+        }
+        if (memcmp(res + l * N, e, N * 8)) {
+          if (!c->wrong) c->first_bad = op;
+          c->wrong++;
+        }
+      }
+    }
+  }
+  free(x); free(x0); free(o); free(y); free(e);
+  return 0;
+}
+static void concurrent_case(uint64_t N, MODULE_TYPE mt, int native, int T, unsigned rep) {
+  char key[128];
+  snprintf(key, sizeof key, "vec_znx ops|%d threads,private vectors%s%s", T, mt == NTT120 ? ",ntt120" : "", native ? "" : ",generic");
+  if (!case_begin(key, "N=%" PRIu64 " rep=%u", N, rep)) return;
+  rng_t* r = crng();
+  cthr8_t c[16];
+  pthread_t tid[16];
+  pthread_barrier_t bar;
+  pthread_barrier_init(&bar, 0, (unsigned)T);
+  for (int t = 0; t < T; t++) {
+    memset(&c[t], 0, sizeof c[t]);
+    c[t].mod = get_module(N, mt, native);
+    c[t].N = N;
+    c[t].seed = rng_u64(r);
+    c[t].iters = N <= 256 ? 400 : (N <= 4096 ? 60 : 10);
+    c[t].big_ok = mt == FFT64;
+    c[t].bar = &bar;
+  }
+  for (int t = 0; t < T; t++) pthread_create(&tid[t], 0, c8_worker, &c[t]);
+  for (int t = 0; t < T; t++) pthread_join(tid[t], 0);
+  pthread_barrier_destroy(&bar);
+  uint64_t calls = 0;
+  for (int t = 0; t < T; t++) {
+    calls += c[t].calls;
+    if (c[t].wrong) viol("oracle", "%s (first wrong; %" PRIu64 " wrong limbs in thread %d): result differs from the per-limb definition while %d threads work on their own vectors (N=%" PRIu64 ", %s)", op_name[c[t].first_bad], c[t].wrong, t, T, N, native ? "native" : "generic");
+  }
+  cnt("concurrent_vector_calls", calls);
+  sample("%d threads, %" PRIu64 " calls (in place and out of place), every limb equal to its definition", T, calls);
+  case_end(1);
+}
+
 void run_C08(void) {
   const int th = G.thorough;
   unsigned ctr = 0;
@@ -341,6 +448,12 @@ void run_C08(void) {
           for (uint64_t as = 0; as <= (ar >= 1 ? 4u : 0u); as++)
             for (uint64_t bs = 0; bs <= (ar >= 2 ? 4u : 0u); bs++, ctr++)
               one_case(op, level, FFT64, 1, kN[ni], rs, as, bs, ctr % 4, (ctr / 4) % 4, (ctr / 16) % 4, (int)(ctr & 1), 0);
+      }
+  for (size_t ni = 0; ni < N_ALL_N; ni++)
+    for (int cfg = 0; cfg < 3; cfg++)
+      for (unsigned rep = 0; rep < (th ? 6u : 1u); rep++) {
+        if (!th && ALL_N[ni] > 4096 && cfg) continue;
+        concurrent_case(ALL_N[ni], cfg == 2 ? NTT120 : FFT64, cfg != 1, cfg == 0 ? 8 : 4, rep);
       }
   // interleaved views of one buffer
   for (size_t ni = 0; ni < N_ALL_N; ni++) {
